@@ -9,7 +9,7 @@ PROP = dict(
              monitors=["table_bounded", "lifetime_window_bound", "lifetime_penalty_honoured",
                        "host_window_bound_across_evictions", "host_penalty_across_evictions"]),
         # the same stream under the Go race detector (a detected race makes the driver exit 66)
-        dict(driver="mgr", binary="zrate", race=True, quick=60, thorough=400, shard=30,
+        dict(driver="mgr", binary="zrate", race=True, noshrink=True, quick=60, thorough=400, shard=30,
              monitors=["table_bounded", "lifetime_window_bound", "lifetime_penalty_honoured",
                        "host_window_bound_across_evictions", "host_penalty_across_evictions"]),
     ],
